@@ -34,7 +34,12 @@ RULE = ("seeded generator over the independent sealer gen_vmx: every cipher x MA
         "locator derives from ANOTHER pair's passphrase — the earlier pair under the later passphrase, the later under the earlier, every "
         "earlier pair under the last, a middle pair — or under a foreign passphrase, and configuration blobs that pad validly under "
         "the data key of a pair with another key; the colliding salt / IV is found by a deterministic search (gen_vmx."
-        "force_pad_collision), the victim pair runs through all 18 cipher x MAC x KDF combinations; every pair's passphrase is tried.")
+        "force_pad_collision), the victim pair runs through all 18 cipher x MAC x KDF combinations; every pair's passphrase is tried. "
+        "Directed family kind-encoding (64 per quick run): the plain-text envelope carries .encoding absent / UTF-8 / utf-8 / windows-1252 / "
+        "Shift_JIS / GBK / ISO-8859-1 / an unknown name / windows-932 / Big5 / EUC-KR / cp1252 / latin1 / US-ASCII / UTF-16 / windows-1251 "
+        "while the encrypted configuration (UTF-8 by construction, with or without a .encoding = UTF-8 line of its own) holds values "
+        "and keys outside ASCII: Latin-1 letters whose UTF-8 form has the bytes 0x81/0x8d/0x8f/0x90/0x9d, euro sign, Greek, Cyrillic, "
+        "Hebrew, CJK, Hangul, emoji; correct / wrong passphrases and again on the same object.")
 ASSUMPTIONS = ["primitives are modelled, not verified: PBKDF2, HMAC, AES-CBC (pycryptodome), base64.b64decode, int(), bytes.decode() and the .vmx "
                "dictionary syntax are parameters of the Lean model, supplied as a per-attempt table computed with the real libraries",
                "text is modelled as UTF-8 bytes; percent-decoded sequences that are not valid UTF-8 are outside the generator",
@@ -224,6 +229,55 @@ def _padvalid_cases(seed, tier, tag, n):
     return cases
 
 
+# --------------------------------------------------------------------------- directed: the envelope names another code page
+#
+# The plain-text dictionary around the encrypted one carries `.encoding = "<code page of the host>"`; the encrypted
+# configuration is UTF-8 whatever the envelope says (that is what the sealer encrypts: truth by construction) and holds
+# characters outside ASCII. Unlocking must give exactly that configuration back.
+
+ENC_OUTER = [None, "UTF-8", "utf-8", "windows-1252", "Shift_JIS", "GBK", "ISO-8859-1", "x-no-such-codepage", "windows-932", "Big5",
+             "EUC-KR", "cp1252", "latin1", "US-ASCII", "UTF-16", "windows-1251"]
+ENC_INNER = ["none", "first:UTF-8", "none", "last:utf-8"]
+# U+00C1 U+00CD U+00CF U+00D0 U+00DD are C3 81 / C3 8D / C3 8F / C3 90 / C3 9D in UTF-8: second bytes no Windows-1252 character has
+ENC_VALUES = ["\u00c1\u00cd\u00cf\u00d0\u00dd", "B\u00fcro-VM \u20ac \u6771\u4eac", "na\u00efve caf\u00e9", "\u65e5\u672c\u8a9e\u30c7\u30a3\u30b9\u30af.vmdk",
+              "\U0001F4BE vm \U0001F511", "\u00d0", "\u03a9\u03bc\u03ad\u03b3\u03b1", "\u041f\u0440\u0438\u0432\u0435\u0442 \u043c\u0438\u0440", "\ud55c\uad6d\uc5b4 VM",
+              "\u00dd\u00c1", "C:\\VMs\\M\u00fcller\\\u00c4\u00d6\u00dc\u00df.vmdk", "\u4e2d\u6587\u78c1\u76d8 \u00cf", "\u00e9", "\u0160koda \u017dlu\u0165ou\u010dk\u00fd",
+              "x\u00a0y\u00ad\u00ff", "\u05e9\u05dc\u05d5\u05dd"]
+ENC_KEYS = ["displayName", "annotation", "scsi0:0.fileName", "guestinfo.owner", "sata0:1.fileName", "Schl\u00fcssel", "nvram", "\u540d\u524d"]
+
+
+def _encoding_cases(seed, tier, tag, n):
+    rng = random.Random(f"C15/encoding/{tag}/{seed}/{tier}")
+    cases = []
+    for i in range(n):
+        combo = gen_vmx.COMBOS[(i * 5 + 2) % len(gen_vmx.COMBOS)]
+        outer = ENC_OUTER[i % len(ENC_OUTER)]
+        inner = ENC_INNER[(i // len(ENC_OUTER)) % len(ENC_INNER)]
+        r = gen_vmx.gen_recipe(rng, "quick", combo=combo)
+        for p in r["pairs"]:
+            p["rounds"] = min(p["rounds"], 60)
+        vis = [it for it in r["visible"] if it.get("k", "").lower() != ".encoding"]
+        if outer is not None:
+            vis.insert(0 if i % 3 else rng.randint(0, len(vis)), {"k": ".encoding" if i % 5 else ".Encoding", "v": outer})
+        r["visible"] = vis
+        r["enc_at"] = sorted(rng.randint(0, len(vis)) for _ in range(2))
+        hid = [it for it in gen_vmx._gen_items(rng, rng.randint(0, 5)) if it.get("k", "").lower() != ".encoding"]
+        for j in range(2 + i % 3):
+            hid.insert(rng.randint(0, len(hid)), {"k": ENC_KEYS[(i + 3 * j) % len(ENC_KEYS)] + ("" if j == 0 else str(j)),
+                                                  "v": ENC_VALUES[(i // 2 + 5 * j) % len(ENC_VALUES)] if j else ENC_VALUES[i % len(ENC_VALUES)]})
+        if i % 2 == 0:                                          # bytes 0x81 / 0x8d / 0x8f / 0x90 / 0x9d after a lead byte
+            hid.insert(rng.randint(0, len(hid)), {"k": "guestinfo.note", "v": ENC_VALUES[0][i // 2 % 5:] + " " + ENC_VALUES[(i // 2) % 5 * 4 % len(ENC_VALUES)]})
+        if inner != "none":
+            where, name = inner.split(":")
+            hid.insert(0 if where == "first" else len(hid), {"k": ".encoding", "v": name})
+        r["hidden"] = hid
+        b = gen_vmx.build(r)
+        qs, _ = _file_queries(0, b, rng, tampers=(i % 8 == 0))
+        qs += [[0, "again-good"], [0, "again-wrong", b["passphrase"] + "\u00e9"], [0, "again-good"]] if i % 4 == 1 else []
+        cases.append({"id": f"{tag}e{i}", "recipe": {"kind": "encoding", "outer": outer or "absent", "inner": inner, "files": [r]}, "queries": qs})
+    return cases
+
+
 def _cases(seed, tier, tag, n_gen, n_same, n_seq):
     rng = random.Random(f"C15/{tag}/{seed}/{tier}")
     cases, padcases = [], []
@@ -260,15 +314,15 @@ def _cases(seed, tier, tag, n_gen, n_same, n_seq):
 
 def generate(seed, tier):
     if tier == "quick":
-        cases = _cases(seed, tier, "", 180, 36, 24) + _padvalid_cases(seed, tier, "", 72)
+        cases = _cases(seed, tier, "", 180, 36, 24) + _padvalid_cases(seed, tier, "", 72) + _encoding_cases(seed, tier, "", 64)
     else:
-        cases = _cases(seed, tier, "", 1800, 300, 200) + _padvalid_cases(seed, tier, "", 720)
+        cases = _cases(seed, tier, "", 1800, 300, 200) + _padvalid_cases(seed, tier, "", 720) + _encoding_cases(seed, tier, "", 640)
     prefetch(cases)
     return cases
 
 
 def search(seed, broken, budget):
-    cases = _cases(seed, "thorough", "x", min(budget // 4, 400), 60, 40) + _padvalid_cases(seed, "thorough", "x", 144)
+    cases = _cases(seed, "thorough", "x", min(budget // 4, 400), 60, 40) + _padvalid_cases(seed, "thorough", "x", 144) + _encoding_cases(seed, "thorough", "x", 64)
     prefetch(cases)
     return cases
 
@@ -345,6 +399,11 @@ def build(case):
     br.add("kind-" + r["kind"])
     if r.get("shape"):
         br.add("shape-" + r["shape"])
+    if r["kind"] == "encoding":
+        br.add("enc-outer=" + r["outer"])
+        br.add("enc-inner=" + r["inner"])
+        if any(ord(c) > 127 for b in files for v in b["hidden"].values() for c in v):
+            br.add("enc-hidden-non-ascii")
     info = {"branches": sorted(br), "in_scope": True, "compare_model_out_of_scope": True, "tamper_padding_only": padonly,
             "nontrivial": any(t.startswith("ok") for t in truth) and any(t.startswith("E") for t in truth)
             and any(b["hidden"] for b in files)}
